@@ -9,9 +9,13 @@ pub mod channel
     use std::cell::UnsafeCell;
     use std::sync::Arc;
 
+    /// capacity of the model channel (exceeding it is a loud failure); an inline array, not a `Vec`: sending happens
+    /// inside `Drop` impls that CBMC explores under symbolic guards, and a `Vec::push` there drags its growth path along
+    pub const CAP: usize = 8;
     struct Chan<T>
     {
-        items: Vec<Option<T>>,
+        items: [Option<T>; CAP],
+        len: usize,
         head: usize,
     }
 
@@ -33,7 +37,7 @@ pub mod channel
 
     pub fn unbounded<T>() -> (Sender<T>, Receiver<T>)
     {
-        let shared = Arc::new(Shared(UnsafeCell::new(Chan{ items: Vec::with_capacity(8), head: 0 })));
+        let shared = Arc::new(Shared(UnsafeCell::new(Chan{ items: [None, None, None, None, None, None, None, None], len: 0, head: 0 })));
         (Sender(shared.clone()), Receiver(shared))
     }
 
@@ -42,7 +46,10 @@ pub mod channel
         pub fn send(&self, msg: T) -> Result<(), SendError<T>>
         {
             let chan = unsafe { &mut *self.0.0.get() };
-            chan.items.push(Some(msg));
+            if chan.len >= CAP { panic!("model capacity exceeded: channel CAP"); }
+            // the slot is None (invariant): written without drop glue for the old value
+            unsafe { core::ptr::write(&mut chan.items[chan.len], Some(msg)); }
+            chan.len += 1;
             Ok(())
         }
     }
@@ -52,7 +59,7 @@ pub mod channel
         pub fn try_recv(&self) -> Result<T, TryRecvError>
         {
             let chan = unsafe { &mut *self.0.0.get() };
-            if chan.head >= chan.items.len() { return Err(TryRecvError::Empty); }
+            if chan.head >= chan.len { return Err(TryRecvError::Empty); }
             let item = chan.items[chan.head].take();
             chan.head += 1;
             match item { Some(x) => Ok(x), None => Err(TryRecvError::Empty) }
@@ -62,7 +69,7 @@ pub mod channel
         pub fn len(&self) -> usize
         {
             let chan = unsafe { &*self.0.0.get() };
-            chan.items.len() - chan.head
+            chan.len - chan.head
         }
 
         pub fn is_empty(&self) -> bool { self.len() == 0 }
